@@ -20,6 +20,8 @@ def plan(tier):
               (tm.Cfg('sim-lock-n3', [1, 1, 2], [1], max_round=3, max_height=2, nbyz=1, budget=-1, own_first=False,
                       useful_only=True), n, 110)]
     p.rule_extra = 'Lock-related goals: a lock is taken, released by a later polka, renewed, and the locked block is proposed/prevoted.'
+    p.live_runs = [(tm.Cfg('trace-n4', [1, 1, 1, 1], [2], max_round=6, max_height=4, nbyz=0, budget=0, own_first=False,
+                           useful_only=False, properties=[]), 3, 2 if quick else 8)]
     return p
 
 
